@@ -104,6 +104,23 @@ RefEquiv(s) ==
          IN (n >= 1 /\ n <= Len(s.ref[d]) /\ AppliedContent(s, k) = {i \in ContentRows(s, d) : i <= n})
                => s.rep[k].content = s.ref[d][n].content
 
+\* C14/C15 compare text and tree "as character/XML content, not as internal chunking": the same
+\* two invariants on the normalised content (text as its string, tree as XML). An undo that
+\* re-creates purged characters legitimately yields other chunk boundaries than the replica
+\* that kept the original nodes.
+ConvergedN(s) ==
+  \A k1, k2 \in DOMAIN s.rep :
+    (k1[2] = k2[2] /\ k1 # k2 /\ Synced(s, k1) /\ Synced(s, k2)
+       /\ s.rep[k1].st # "removed" /\ s.rep[k2].st # "removed"
+       /\ AppliedContent(s, k1) = AppliedContent(s, k2))
+      => s.rep[k1].ncontent = s.rep[k2].ncontent
+RefEquivN(s) ==
+  \A k \in DOMAIN s.rep :
+    (Synced(s, k) /\ s.rep[k].st # "removed")
+      => LET n == s.rep[k].cp.s d == k[2]
+         IN (n >= 1 /\ n <= Len(s.ref[d]) /\ AppliedContent(s, k) = {i \in ContentRows(s, d) : i <= n})
+               => s.rep[k].ncontent = s.ref[d][n].ncontent
+
 \* C12: same for presence, for attached replicas.
 PresenceConverged(s) ==
   \A k \in DOMAIN s.rep :
@@ -160,6 +177,8 @@ NoPresenceRows(s) ==
 FailedState(s) ==
   (IF Converged(s) THEN {} ELSE {"Converged"}) \cup
   (IF RefEquiv(s) THEN {} ELSE {"RefEquiv"}) \cup
+  (IF ConvergedN(s) THEN {} ELSE {"ConvergedN"}) \cup
+  (IF RefEquivN(s) THEN {} ELSE {"RefEquivN"}) \cup
   (IF PresenceConverged(s) THEN {} ELSE {"PresenceConverged"}) \cup
   (IF CloneEqRoot(s) THEN {} ELSE {"CloneEqRoot"}) \cup
   (IF NoDuplicateRow(s) THEN {} ELSE {"NoDuplicateRow"}) \cup
@@ -486,7 +505,7 @@ RefStep(s, e) ==
            Chk((e.ok /\ Has(e, "yson_ok")) => (e.yson_ok /\ e.yson_before = e.yson_after), "YsonRoundTrip") \cup
            \* C10: after a compaction the rebuilt log yields the content from before
            Chk((s.pre[d].has /\ e.s = Len(s.log[d])) => e.content = s.pre[d].content, "CompactionKeepsContent")
-      s2 == [s EXCEPT !.ref = Upd(@, d, Append(@[d], [content |-> e.content, pres |-> e.pres])),
+      s2 == [s EXCEPT !.ref = Upd(@, d, Append(@[d], [content |-> e.content, ncontent |-> e.ncontent, pres |-> e.pres])),
                       !.pre = IF e.s = Len(s.log[d]) THEN Upd(@, d, [has |-> FALSE, content |-> ""]) ELSE @]
   IN R(s2, v)
 
